@@ -534,10 +534,12 @@ class QuicConnection:
 
         :param now: The current time.
         """
-        network_path = self._network_paths[0]
-
-        if self._state in END_STATES:
+        if self._state in END_STATES or not self._network_paths:
+            # nothing to send once terminated, or while a server has not yet
+            # accepted a first packet (no network path is known)
             return []
+
+        network_path = self._network_paths[0]
 
         # build datagrams
         builder = QuicPacketBuilder(
